@@ -289,7 +289,7 @@ impl<const N: u32> PxE1<{ N }> {
 
                 //regime length is smaller than length of posit
                 if reg_len < N {
-                    if reg_len <= (N - 4) {
+                    if reg_len + 4 <= N {
                         bit_n_plus_one = (0x8000_0000_u64 << (32 - N)) & frac64 != 0;
                         //exp <<= (28-reg_len);
                     } else if reg_len != N - 2 {
